@@ -613,6 +613,12 @@ impl Receiver {
         self.credits.verif_state()
     }
 
+    /// Verification hook: number of messages queued by the multiplexer for this receiver.
+    #[doc(hidden)]
+    pub fn verif_queue_len(&self) -> usize {
+        self.rx.len() + usize::from(self.unprocessed.is_some())
+    }
+
     /// Verification hook: probe for (used, limit) of the receive buffer, usable during a receive.
     #[doc(hidden)]
     pub fn verif_credits_probe(&self) -> impl Fn() -> Option<(u32, u32)> + Send + Sync + 'static {
